@@ -173,7 +173,10 @@ struct Harness
             // small domains make ties occur; the "scrambled" variant (negative raw domain) spreads the few values over
             // several bytes so that numeric order and byte order disagree (little-endian memcmp shortcuts)
             const auto i = h % static_cast<std::uint64_t>(small_domain);
-            return scramble_domain ? ((i << 8) | (static_cast<std::uint64_t>(small_domain) - 1 - i)) : i;
+            if (!scramble_domain) return i;
+            // odd domains: 0, -1, -2, ... (negative values of signed types, all-ones high bytes of unsigned ones)
+            if (small_domain % 2 == 1) return std::uint64_t{0} - i;
+            return (i << 8) | (static_cast<std::uint64_t>(small_domain) - 1 - i);
         }
         return h;
     }
